@@ -58,6 +58,14 @@ class RegisterAllocatorLivenessBlockNaive(BlockNaiveAllocator):
             )
 
         preallocated = RegisterAllocatableOperation.all_used_registers(func.body)
+        # Registers of values that are already allocated cannot be handed out, even when
+        # the operation defining them declares no effect on them (e.g. `get_register`)
+        preallocated = preallocated | {
+            res.type
+            for op in func.body.walk()
+            for res in op.results
+            if isinstance(res.type, self.register_base_class) and res.type.is_allocated
+        }
         excluded = RegisterAllocatableOperation.all_excluded_registers(func.body)
 
         for pa_reg in preallocated | excluded:
